@@ -62,4 +62,15 @@ Section Run.
     end.
 
   Definition run (ops : list op) : list (list Z) := run_from [] ops.
+
+  (* the correspondence check compares one 61-bit (masked polynomial) hash per observation (printing full
+     token lists dominates the cost of a run); on a mismatch the observation itself is printed *)
+  Definition hmod : Z := 2305843009213693951.
+  Fixpoint htok (h : Z) (l : list Z) : Z :=
+    match l with
+    | [] => h
+    | x :: l' => htok (Z.land (h * 1000003 + Z.land x hmod) hmod) l'
+    end.
+  Definition run_hash (ops : list op) : list Z := map (htok 7) (run ops).
+  Definition run_at (ops : list op) (j : nat) : list Z := nth j (run ops) [].
 End Run.
